@@ -64,6 +64,22 @@ def histories(ck):
         [("compile", 0, 0), ("compile", 1, 1), ("recompile", 0, 1), ("load", 1), ("call", 2), ("call", 1), ("call", 0)],
         [("recompile", 0, 0), ("load", 0)],
     ]
+    # many saves to one path (and to two paths in turn), a load and a call after each: the file system recycles the inode numbers of
+    # replaced files, the loader and the temporary builds create and delete files in between - anything that identifies a saved build
+    # by the identity of its file (device/inode, size, modification time) instead of reading it meets an old build here
+    rounds = 10 if ck.tier == "quick" else 30
+    # (with two test models an old build is only visible when it belongs to the other model: the model sequences below have no period)
+    seqs = [[(r // 2) % 2 for r in range(rounds)], [int(b) for b in "0010111001101000111101011001"[:rounds]],
+            [rng.randrange(2) for _ in range(rounds)]]
+    for sq in seqs:
+        one = []
+        for r, m in enumerate(sq):
+            one += [("compile", m, 0), ("load", 0), ("call", 2 * r + 1)]
+        fixed.append(one)
+    two = []
+    for r in range(rounds):
+        two += [("compile", seqs[1][r], r % 2), ("load", r % 2), ("call", 2 * r + 1)]
+    fixed.append(two)
     out.extend(fixed)
     n = 24 if ck.tier == "quick" else 200
     for _ in range(n):
